@@ -807,6 +807,12 @@ class Executor:
         if isinstance(a, SymRef) and isinstance(b, SymRef):
             return a.t == b.t
         for x, y in ((a, b), (b, a)):
+            # a symbolic name object compared with a literal: the literal's id in that name space (contracts register it)
+            if isinstance(x, SymRef) and isinstance(y, SStr) and y.concrete_py() is not None:
+                lits = getattr(self.env, "symref_lits", {}).get(x.cls)
+                if lits is not None:
+                    return x.t == lits(y.concrete_py())
+        for x, y in ((a, b), (b, a)):
             # an object allocated by the code under analysis is never a pre-existing module-level object
             if isinstance(x, Ref) and isinstance(y, Opaque) and y.tag.startswith("live:"):
                 return FALSE
